@@ -133,7 +133,7 @@ def panic_rule(chk, prog, cfg, entries):
                f"may panic on input: {s.kind} {s.what} ({why or 'no discharge idiom applies'})" if how is None else f"{how}: {why}",
                where=s.where(), cfg=cfg)
     chk.extra["panic_inventory"][cfg]["by_discharge"] = classes
-    chk.floor(f"panic sites inventoried [{cfg}]", len(sites), 40 if cfg == "A" else 4)
+    chk.floor(f"panic sites inventoried [{cfg}]", len(sites), 15 if cfg == "A" else 1)
     return bodies
 
 
@@ -250,7 +250,7 @@ def recursion_rule(chk, prog, cfg, bodies):
         if d:
             chk.ob("RECUR", "humphrey_json::parser::MAX_DEPTH", "MAX_DEPTH <= 1024", d[0] == "lit" and isinstance(d[1], int) and d[1] <= 1024,
                    f"MAX_DEPTH = {d}: the default depth limit no longer protects the stack", cfg=cfg)
-        chk.floor("recursive parser functions [A]", len(rec_fns), 5)
+        chk.floor("recursive parser functions [A]", len(rec_fns), 3)
 
 
 def alloc_rule(chk, prog, cfg, bodies):
@@ -363,7 +363,7 @@ def progress_rule(chk, prog, cfg, bodies):
             chk.ob("PROGRESS.eof", p, f"loop around {name}: at end of input (Ok(0), buffer unchanged) the cycle leaves the loop", verdict == "exit",
                    "at end of input this loop comes back to the same read with every branch decided: a truncated message makes the parser spin forever",
                    where=b.where(r), path=[b.where(x) for x in detail][:12] if verdict == "spin" else None, cfg=cfg)
-    chk.floor(f"read loops examined at end of input [{cfg}]", n_eof - n_und, 4 if cfg == "A" else 1)
+    chk.floor(f"read loops examined at end of input [{cfg}]", n_eof - n_und, 2 if cfg == "A" else 1)
 
 
 def _yield_blocks(b):
